@@ -146,3 +146,101 @@ func TestC13Revert(t *testing.T) {
 		settle(rt, rec, viol, map[string]interface{}{"config": cfgDesc, "trace": w.C.Trace}, len(w.C.Trace), "config: "+cfgDesc+"\n--- trace ---\n"+strings.Join(w.C.Trace, "\n"))
 	})
 }
+
+// TestC13StatusWriteFaults: the replica set recorded as active in the STORED status is never collected, whatever
+// happens to the status write of the reconcile that replaces it. Template X is deployed (its replica set may still
+// report no pods: the template is changed before the replica-set controller synced, or no node is eligible), the
+// template changes to Y and the n-th status write of the ExtendedDaemonSet controller is refused (generic error or
+// Conflict) or stored and answered with an error; rs-gc and rs-identity after every reconcile, and at the end the
+// stored status names an existing replica set.
+func TestC13StatusWriteFaults(t *testing.T) {
+	rec := evid.New("TestC13StatusWriteFaults", "C13", "0-2 nodes, no canary or a manual canary validated by the user; template X deployed with the replica-set controller run or not run before the change (X's set may report an all-zero status), template changed to Y, the 1st-6th EDS status write from then on refused (generic error / Conflict) or stored-but-answered-with-an-error (generic / ServerTimeout), the failed reconcile retried one second later as a work queue does; then fair rounds; monitors rs-gc (a Delete never hits the set the stored status names as active after the reconcile), rs-identity, promotion-rule after every reconcile; end check: status.activeReplicaSet names an existing replica set that matches spec.template; non-trivial = the fault hit a status write that changes status.activeReplicaSet; distinct by configuration")
+	t.Cleanup(func() {
+		if !t.Failed() {
+			rec.Done()
+		}
+	})
+	rapid.Check(t, func(rt *rapid.T) {
+		nodes := rapid.IntRange(0, 2).Draw(rt, "nodes")
+		canary := rapid.Bool().Draw(rt, "manualCanary")
+		synced := rapid.Bool().Draw(rt, "replicaSetSyncedBeforeTheChange")
+		nth := rapid.IntRange(1, 6).Draw(rt, "faultedStatusWrite")
+		kind := rapid.SampledFrom([]sim.FaultKind{sim.FaultReject, sim.FaultRejectTyped, sim.FaultRejectTyped, sim.FaultLostAnswer, sim.FaultLostAnswerTyped}).Draw(rt, "answer")
+		desc := fmt.Sprintf("nodes=%d manualCanary=%v replicaSetSyncedBeforeTheChange=%v statusWrite#%d=%s", nodes, canary, synced, nth, kind)
+		var viol []mon.V
+		w := &World{rec: rec, cfg: WorldCfg{Monitors: mon.Of("rs-identity", "rs-gc", "promotion-rule", "no-panic"), Property: "C13"}, H: mon.NewHistory(), RSSeen: map[string]bool{}, RolesSynced: map[string]bool{}, Facts: map[string]int{}, lastSyncAt: map[string]time.Time{}, Det: true, RetryFaulted: true}
+		w.OnViolation = func(vs []mon.V) { viol = append(viol, vs...) }
+		w.C = sim.New(sim.Options{})
+		for i := 0; i < nodes; i++ {
+			w.C.AddNode(fmt.Sprintf("n%d", i+1), map[string]string{"zone": "a", "tier": "a"}, nil)
+		}
+		st := edsv1.ExtendedDaemonSetSpecStrategy{}
+		st.RollingUpdate.MaxUnavailable = gen.ParseIntOrPercent("100%")
+		if canary {
+			st.Canary = &edsv1.ExtendedDaemonSetSpecStrategyCanary{Replicas: gen.ParseIntOrPercent("1"), ValidationMode: edsv1.ExtendedDaemonSetSpecStrategyCanaryValidationModeManual}
+		}
+		w.C.Add(&edsv1.ExtendedDaemonSet{ObjectMeta: metav1.ObjectMeta{Namespace: "ns1", Name: "foo"}, Spec: edsv1.ExtendedDaemonSetSpec{Template: gen.LetterTemplate('A'), Strategy: st}})
+		k := sim.KeyOf("ns1", "foo")
+		w.EDS = append(w.EDS, k)
+		stop := func() bool { return len(viol) > 0 }
+		// X becomes active: EDS reconciles only (the replica-set controller has not run yet), or full rounds
+		for i := 0; i < 6 && !stop(); i++ {
+			if e := w.C.EDS(k.Namespace, k.Name); e != nil && e.Status.ActiveReplicaSet != "" {
+				break
+			}
+			w.C.Advance(time.Second)
+			w.reconcile(sim.ActorEDS, k.Namespace, k.Name)
+		}
+		if synced {
+			for i := 0; i < 3 && !stop(); i++ {
+				w.fairRound("c13 x deployed")
+			}
+		}
+		activeX := w.C.EDS(k.Namespace, k.Name).Status.ActiveReplicaSet
+		w.editTemplate(k, 'B')
+		writes, hit, changedActive := 0, false, false
+		w.C.Faults = func(call *sim.Call) sim.FaultKind {
+			if call.Actor == sim.ActorEDS && call.Kind == "ExtendedDaemonSet" && call.Verb == "status-update" {
+				writes++
+				if writes == nth {
+					hit = true
+					if e, ok := call.Obj.(*edsv1.ExtendedDaemonSet); ok && e.Status.ActiveReplicaSet != activeX {
+						changedActive = true
+					}
+					w.C.Tracef("FAULT %s on %s", kind, call.String())
+					return kind
+				}
+			}
+			return sim.FaultNone
+		}
+		for i := 0; i < 12 && !stop(); i++ {
+			if canary {
+				e := w.C.EDS(k.Namespace, k.Name)
+				for _, rs := range w.rsOf(k) {
+					if oracle.RSMatchesTemplate(rs, &e.Spec.Template) && rs.Name != e.Status.ActiveReplicaSet && e.Annotations[oracle.AnnCanaryValid] != rs.Name {
+						_ = w.C.SetEDSAnnotation(k.Namespace, k.Name, oracle.AnnCanaryValid, rs.Name)
+					}
+				}
+			}
+			w.fairRound("c13 y")
+			w.C.GC()
+		}
+		w.C.Faults = nil
+		if !stop() {
+			e := w.C.EDS(k.Namespace, k.Name)
+			rs := w.C.ERS(k.Namespace, e.Status.ActiveReplicaSet)
+			if rs == nil {
+				viol = append(viol, mon.V{Property: "C13", Monitor: "revert", Sig: "C13/status-write-faults/recorded-active-set-gone", Detail: fmt.Sprintf("status.activeReplicaSet=%q names no existing replica set (%s)", e.Status.ActiveReplicaSet, desc)})
+			} else if !oracle.RSMatchesTemplate(rs, &e.Spec.Template) {
+				viol = append(viol, mon.V{Property: "C13", Monitor: "revert", Sig: "C13/status-write-faults/new-template-not-active", Detail: fmt.Sprintf("twelve rounds after the change the active replica set %s is not the one of spec.template (%s)", rs.Name, desc)})
+			}
+		}
+		nt := hit && changedActive
+		rec.Case(nt, evid.FP(desc), fmt.Sprintf("fault-hit=%v", hit), fmt.Sprintf("answer=%s", kind))
+		rec.Steps(1)
+		if nt && rec.WantSample() {
+			rec.Sample(desc)
+		}
+		settle(rt, rec, viol, map[string]interface{}{"config": desc, "trace": w.C.Trace}, len(w.C.Trace), "config: "+desc+"\n--- trace ---\n"+strings.Join(w.C.Trace, "\n"))
+	})
+}
